@@ -768,6 +768,7 @@ func main() {
 		nre = 1500
 	}
 	parallel(rebindHistories(hx.Rand(), nre), evalRebind)
+	parallel(failedStartHistories(), evalFailedStart)
 
 	// 3. generated histories
 	n := 400
@@ -828,6 +829,8 @@ func replay(path string) {
 			evalOutstanding(h)
 		} else if strings.HasPrefix(h.Ops[0], "rebind") {
 			evalRebind(h)
+		} else if h.Ops[0] == "failedstart" {
+			evalFailedStart(h)
 		} else {
 			evalHistory(h, "replay")
 		}
